@@ -75,7 +75,7 @@ def _short(v):
 
 
 def strat(tier):
-    return S.bf3_case(max_comps=6, max_len=4096 if tier == "quick" else 65536)
+    return S.bf3_case(max_comps=6, max_len=6144 if tier == "quick" else 65536)
 
 
 def enum_grid(tier, shard, nshards, rng):
